@@ -1,7 +1,9 @@
 #!/bin/sh
 # tools/trymut.sh <patch.diff> <Cxx> [tier] : run a check against a scratch copy of /repo with the patch applied
+# (VERIF_DIR: which checkout of /verif runs it; default the directory of this script)
+V=${VERIF_DIR:-$(cd "$(dirname "$0")/.." && pwd)}
 d=$(mktemp -d /tmp/trymut.XXXXXX)
 rsync -a --exclude .git --exclude build /repo/ $d/
 (cd $d && (git apply "$1" 2>/dev/null || patch -s -p1 < "$1")) || { echo "patch failed"; rm -rf $d; exit 2; }
-cd /verif && MOCLO_REPO=$d ./check $2 --tier ${3:-quick} 2>&1 | tail -4
-rm -rf $d; /verif/tools/regen.sh >/dev/null 2>&1
+cd $V && MOCLO_REPO=$d ./check $2 --tier ${3:-quick} 2>&1 | tail -4
+rm -rf $d; $V/tools/regen.sh >/dev/null 2>&1
